@@ -78,11 +78,15 @@ QueriesOK(j, O) ==
           /\ (j.q.has[id][k] = 1) <=> ScanHas(O, id, t)
     /\ \A n \in Present(O) : O.tid[n] # j.q.next_tid
     /\ LidOn(O) => \A n \in Present(O) : O.lid[n] # j.q.next_lid
-P_C06R(x) == (x.pf.forest /\ x.pf.tid /\ x.pf.lid /\ x.pf.look /\ NoDupLookups(Rec.pre) /\ ~IsSwitch(x.c)
-              /\ TidOn(x.pre)) =>
-                /\ LookupOK(x.post) /\ QueriesOK(Rec.post, x.post)
-                /\ (Accepted(x) => /\ LookupOK(x.u_post) /\ NoDupLookups(Rec.u_post)
-                                   /\ LookupOK(x.r_post) /\ NoDupLookups(Rec.r_post))
+\* node ids issued after the last state of the record: pairwise distinct and not in use
+NewIdsOK == /\ Cardinality(Rng(Rec.newids)) = Len(Rec.newids)
+            /\ \A k \in Rng(Rec.newids) : k >= 1 /\ (k \in Node => Rec.r_post.time[k] = NoT)
+P_C06R(x) ==
+    /\ NewIdsOK
+    /\ (x.pf.forest /\ x.pf.tid /\ x.pf.lid /\ x.pf.look /\ NoDupLookups(Rec.pre) /\ ~IsSwitch(x.c) /\ TidOn(x.pre)) =>
+           /\ LookupOK(x.post) /\ QueriesOK(Rec.post, x.post)
+           /\ (Accepted(x) => /\ LookupOK(x.u_post) /\ NoDupLookups(Rec.u_post)
+                              /\ LookupOK(x.r_post) /\ NoDupLookups(Rec.r_post))
 \* C07: the pixel query returns exactly the node's pixels
 PixQueryOK(j, O) == HasSeg => \A n \in Present(O) : Rng(j.q.pix[n]) = MaskOf(O, n)
 P_C07R(x) == P_C07(x) /\ ((HasSeg /\ x.pf.forest /\ x.pf.seg /\ x.ok) => PixQueryOK(Rec.post, x.post))
